@@ -312,7 +312,57 @@ structure StoreStep (Γ : Ctx) (env env' : Env) (fs : List Expr) (lhs rhs : Expr
   stable : ∀ e, wt Γ e → Unaff e → evalI env' e = evalI env e
   keptU : ∀ f ∈ fs, mentionsLHS lhs f = false → Unaff f
   rhsU : mentionsLHS lhs rhs = false → Unaff rhs
+  anyU : ∀ e, mentionsLHS lhs e = false → Unaff e
   xrU : ∀ xop xr, Expr.binary xop lhs xr ∈ fs → mentionsLHS lhs xr = false → Unaff xr
+
+/-- one fact of `bcheckAssignmentMaxMin` is true after the store: the operand is
+unaffected by it and `lhs` denotes the stored location -/
+theorem minMaxFact_sound {Γ : Ctx} {env env' : Env} {fs gs : List Expr} {lhs rhs x : Expr} {v : Int}
+    {Unaff : Expr → Prop} {op : BOp} (T : StoreStep Γ env env' fs lhs rhs v Unaff)
+    (hwl : wt Γ lhs) (hwx : wt Γ x) (hop : op.isCmp = true) (hrel : cmpRel op v (evalI env x))
+    (hg : FactsHold env' gs ∧ (∀ f ∈ gs, wt Γ f) ∧ (∀ f ∈ gs, GoodFact f)) :
+    FactsHold env' (minMaxFact gs lhs op x) ∧ (∀ f ∈ minMaxFact gs lhs op x, wt Γ f) ∧
+      (∀ f ∈ minMaxFact gs lhs op x, GoodFact f) := by
+  unfold minMaxFact
+  split
+  · exact hg
+  · rename_i hm
+    simp only [Bool.or_eq_true, not_or, Bool.not_eq_true] at hm
+    have cf : IsCmpFact (.binary op lhs x) := ⟨_, _, _, rfl, hop⟩
+    have tf : evalI env' (.binary op lhs x) ≠ 0 := by
+      apply (evalI_cmp hop _ _).2
+      rw [T.lhsVal hm.2, T.stable x hwx (T.anyU x hm.1)]
+      exact hrel
+    refine ⟨factsHold_appendFact cf hg.1 tf, ?_, ?_⟩
+    · intro f hfm
+      rcases mem_appendFact_cmp cf hfm with h | h
+      · exact hg.2.1 f h
+      · subst h; exact ⟨hwl, hwx⟩
+    · intro f hfm
+      rcases mem_appendFact_cmp cf hfm with h | h
+      · exact hg.2.2 f h
+      · subst h; exact goodFact_of_cmp cf
+
+/-- `bcheckAssignmentMaxMin`: the facts recorded after `lhs = a.min(…b)` / `a.max(…b)` -/
+theorem minMaxFacts_sound {Γ : Ctx} {env env' : Env} {fs gs : List Expr} {lhs rhs : Expr}
+    {Unaff : Expr → Prop} (T : StoreStep Γ env env' fs lhs rhs (evalI env rhs) Unaff)
+    (hwl : wt Γ lhs) (hwr : wt Γ rhs)
+    (hg : FactsHold env' gs ∧ (∀ f ∈ gs, wt Γ f) ∧ (∀ f ∈ gs, GoodFact f)) :
+    FactsHold env' (minMaxFacts gs lhs rhs) ∧ (∀ f ∈ minMaxFacts gs lhs rhs, wt Γ f) ∧
+      (∀ f ∈ minMaxFacts gs lhs rhs, GoodFact f) := by
+  unfold minMaxFacts
+  split
+  · rename_i a b
+    simp only [wt] at hwr
+    refine minMaxFact_sound T hwl hwr.2 rfl ?_ (minMaxFact_sound T hwl hwr.1 rfl ?_ hg)
+    · simp only [cmpRel, evalI, binSem]; split <;> omega
+    · simp only [cmpRel, evalI, binSem]; split <;> omega
+  · rename_i a b
+    simp only [wt] at hwr
+    refine minMaxFact_sound T hwl hwr.2 rfl ?_ (minMaxFact_sound T hwl hwr.1 rfl ?_ hg)
+    · simp only [cmpRel, evalI, binSem]; split <;> omega
+    · simp only [cmpRel, evalI, binSem]; split <;> omega
+  · exact hg
 
 theorem assign_core {Γ : Ctx} {env env' : Env} {fs fs' : List Expr} {lhs rhs : Expr}
     {Unaff : Expr → Prop}
@@ -376,7 +426,7 @@ theorem assign_core {Γ : Ctx} {env env' : Env} {fs fs' : List Expr} {lhs rhs : 
                 rcases mem_appendFact_cmp ceq hfm with h | h
                 · exact c1 f h
                 · subst h; exact goodFact_of_cmp ceq
-          obtain ⟨s2a, s2b, s2c⟩ := s2
+          obtain ⟨s2a, s2b, s2c⟩ := minMaxFacts_sound T hwl hwr s2
           split at h
           · cases h; exact ⟨T.envOk', s2a, s2b, s2c⟩
           · rename_i hir
@@ -517,6 +567,7 @@ theorem storeStep_var {Γ : Ctx} {env : Env} {fs : List Expr} {n : String} {rhs 
   stable := fun e hw hu => evalI_upd v e hw hu
   keptU := fun _ _ h => by simpa [mentionsLHS] using h
   rhsU := fun h => by simpa [mentionsLHS] using h
+  anyU := fun _ h => by simpa [mentionsLHS] using h
   xrU := fun _ _ _ h => by simpa [mentionsLHS] using h
 
 theorem assign_sound {Γ : Ctx} {env : Env} {fs fs' : List Expr} {n : String} {rhs : Expr}
@@ -583,6 +634,7 @@ theorem storeStep_index {Γ : Ctx} {env : Env} {fs : List Expr} {a : String} {le
   stable := fun e _ hu => evalI_updCell _ _ e hu
   keptU := fun _ _ h => mentionsLHS_index_false h
   rhsU := fun h => mentionsLHS_index_false h
+  anyU := fun _ h => mentionsLHS_index_false h
   xrU := fun _ _ _ h => mentionsLHS_index_false h
 
 /-- a statement with an ARRAY-ELEMENT target: the element type is the declared one, the
